@@ -90,6 +90,29 @@ theorem tie_countCollections_strings : countCollectionsStrings =
    "GET",
    "arvados/v1/collections"] := rfl
 
+/-- `arvados.Client.DoAndDecode`, the helper under every API request of the sweep: a 200 response is
+decoded with `json.Unmarshal` whenever the caller wants a result (an empty or cut-short body is then a
+decode error — the model's "request k fails"); every non-200, non-redirect status is an error. -/
+theorem tie_doAndDecode_conds : doAndDecodeConds =
+  ["if err != nil",
+   "if err != nil",
+   "case resp.StatusCode == http.StatusOK && dst == nil",
+   "case resp.StatusCode == http.StatusOK",
+   "case isRedirectStatus(resp.StatusCode) && dst == nil",
+   "case isRedirectStatus(resp.StatusCode)",
+   "if err != nil",
+   "default"] := rfl
+
+theorem tie_doAndDecode_returns : doAndDecodeReturns =
+  ["err",
+   "err",
+   "nil",
+   "json.Unmarshal(buf, dst)",
+   "nil",
+   "err",
+   "json.Unmarshal(buf, dst)",
+   "newTransactionError(req, resp, buf)"] := rfl
+
 /-! ### (b) index readers and producer -/
 
 /-- `KeepService.index`: status test, scanner loop, `sawEOF` tests, field count, legacy-seconds fix,
